@@ -1,7 +1,7 @@
 """C03 — numeric conversions and binary encodings. Spec: MBF.tla + MBFConv.tla; oracle self-checks MBFConv_MC (and MBF_MC);
 trace spec C03_Trace."""
 import time
-from ..mbfdrv import (Drv, typ, int_bytes, flt, flt_of_int, neighbour, rand_float, rand_value, near_integer,
+from ..mbfdrv import (Drv, Pipeline, Sink, typ, int_bytes, flt, flt_of_int, neighbour, rand_float, rand_value, near_integer,
                       small_magnitude, CVFN, MKFN, PBITS, SIZE)
 
 LEVEL = 'exploration'
@@ -46,13 +46,22 @@ def run(ctx):
     t0 = time.time()
     d = Drv()
     bv = d.bv
-    events = []
+
+    def on_reject(clause, e):
+        key = {'clause': clause, 'fn': e['fn'], 't': e.get('t', 'i'), 'k': e['k'], 'c': e.get('c', 0), 'via': e['via']}
+        ctx.reject('C03 %s: %s(%s %s) -> %s %s %s' % (clause, e['fn'], e.get('t', ''), e.get('x', e.get('v')), e['k'],
+                                                      e.get('r', e.get('s')), e.get('detail', e.get('back', ''))),
+                   key=key, data=e)
+
+    pipe = Pipeline(ctx, 'C03_Trace', on_reject, lambda e: [e['fn'], e.get('x', e.get('v')), e['via']],
+                    parallel=2 if quick else 4)
+    events = Sink(ctx, pipe, lambda e: e['fn'], ['cint', 'int', 'd2s', 'hex', 'cv', 'mki'])
     ptext = 0.08 if quick else 0.04      # share of float cases driven through BASIC text
 
     # ---- all 65536 integers ------------------------------------------------
     stride_txt = 9 if quick else 1
     for v in range(-32768, 32768):
-        iv = d.vm.new_integer().from_int(v)
+        iv = d.val(int_bytes(v))      # (built from the encoding: a failing Integer.from_int must not stop the harness)
         for fn, base, pre in (('hex', 16, '&H'), ('oct', 8, '&O')):
             if (v % stride_txt == 0) or abs(v) < 300 or abs(v) > 32500:
                 r = d.sess.ev('%s$(%d)' % (fn.upper(), v))
@@ -107,7 +116,7 @@ def run(ctx):
                                'c': o['c'], 'via': 'direct'})
 
     # ---- CINT / FIX / INT on singles and doubles -----------------------------
-    nflt = ctx.pick(16000, 600000)
+    nflt = ctx.pick(25000, 400000)
     edge_n = [32767, 32768, 32769, 32766, 65535, 65536, 65537, 16384, 1, 2, 3, 255, 256]
     for t in ('s', 'd'):
         pats = []
@@ -134,6 +143,15 @@ def run(ctx):
                     mant = ((n << f) | fr) if f >= 0 else (n >> -f)
                     for neg in (0, 1):
                         pats.append(flt(t, mant, 128 + eb, neg))
+        if not quick:
+            # thorough: ALL 2^16 patterns of the 16 mantissa bits around the binary point, at 8 integer-part widths
+            for eb in (1, 2, 8, 15, 16, 17, p - 1, p):
+                lo = max(0, min(p - 17, p - eb - 8))
+                base = rng.getrandbits(p)
+                neg = rng.random() < 0.5
+                for w in range(65536):
+                    pats.append(flt(t, ((base & ~(0xffff << lo)) | (w << lo) | (1 << (p - 1))) & ((1 << p) - 1), 128 + eb, neg))
+            ctx.cov['exhaustive_16bit_windows_%s' % t] = 8
         for b in pats:
             for fn in ('cint', 'fix', 'int'):
                 events.append(conv_events(d, fn, b, rng.random() < ptext))
@@ -159,7 +177,7 @@ def run(ctx):
                                'r': o['b'], 'via': 'direct'})
 
     # ---- single -> double (exact), double -> single (neighbour rule) ----------
-    nsd = ctx.pick(12000, 400000)
+    nsd = ctx.pick(20000, 300000)
     for _ in range(nsd):
         b = rand_float(rng, 's')
         text = rng.random() < ptext
@@ -190,27 +208,10 @@ def run(ctx):
                        'via': 'text' if text else 'direct'})
     d.close()
     ctx.cov['impl_wall_s'] = round(time.time() - t0, 1)
+    pipe.finish()
     ctx.cov['calls_direct'] = d.ndirect
     ctx.cov['calls_via_basic_text'] = d.ntext
-
-    fns = {}
-    for e in events:
-        ctx.count([e['fn'], e.get('x', e.get('v')), e['via']])
-        fns[e['fn']] = fns.get(e['fn'], 0) + 1
-    ctx.cov['events_by_fn'] = fns
-    for fn in ('cint', 'd2s', 'hex', 'cv'):
-        ctx.sample(next(e for e in events if e['fn'] == fn))
-    CH = 150000
-    for at in range(0, len(events), CH):
-        chunk = events[at:at + CH]
-        verdicts = ctx.validate('C03_Trace', [{k: v for k, v in e.items() if k not in ('via', 'detail')} for e in chunk])
-        ctx.cov['traces_validated_against_impl'] += 1
-        for (i, clause) in verdicts:
-            e = chunk[i - 1]
-            key = {'clause': clause, 'fn': e['fn'], 't': e.get('t', 'i'), 'k': e['k'], 'c': e.get('c', 0), 'via': e['via']}
-            ctx.reject('C03 %s: %s(%s %s) -> %s %s %s' % (clause, e['fn'], e.get('t', ''), e.get('x', e.get('v')), e['k'],
-                                                          e.get('r', e.get('s')), e.get('detail', e.get('back', ''))),
-                       key=key, data=e)
+    ctx.cov['events_by_fn'] = pipe.by
     ctx.assumptions += ['TLC evaluates MBF.tla/MBFConv.tla correctly (self-checked against native arithmetic on the reduced '
                         'format by MBFConv_MC / MBF_MC)',
                         'error kind on the BASIC-text path is read from the console message; direct calls run with the '
